@@ -54,6 +54,8 @@ def simple_iface_unit(cls, uid=None, prop="C03"):
         c.oblige("other_fields_kept", all(read(new, k) is vals[k] or (is_z3(vals[k]) and read(new, k).eq(vals[k])) for k in vals if k not in pos))
         got0 = ip.call(method(ip, iface, "extract_position"), [["b", "a"], state], {})
         c.oblige("extract_reads_state", list(got0) == ["b", "a"] and got0["b"].eq(vals["b"]) and got0["a"].eq(vals["a"]))
+        kind_it, got_it = try_call(ip, method(ip, iface, "extract_position"), [PyObj("iterator", items=["b", "a"], pos=0), state], {})  # keys as a one-shot iterable
+        c.oblige("extract_reads_state.keys_given_as_an_iterator", kind_it == "ok" and list(got_it) == ["b", "a"] and got_it["b"].eq(vals["b"]) and got_it["a"].eq(vals["a"]))
         # a position is a PLAIN dict: JAX flattens plain dicts in sorted-key order - the order in which the tuning code lays out the inverse
         # mass matrix and ravel_pytree lays out the flat coordinates; a dict subclass (OrderedDict) flattens in insertion order instead
         c.oblige("position_is_a_plain_dict", type(got0) is dict and type(got) is dict)
@@ -169,6 +171,9 @@ def liesel_unit(shape, rel=IFACE, cls="LieselInterface", auto_update=True, uid=N
         got = ip.call(method(ip, iface, "extract_position"), [list(p2), r2], {})
         c.oblige("put_get", list(got) == list(p2) and all(ip.to_U(got[k]).eq(p2[k]) for k in p2))
         c.oblige("position_is_a_plain_dict", type(got) is dict)  # flattened by JAX in sorted-key order (see C03.DictInterface)
+        # the keys as a ONE-SHOT iterable (a generator over the position's keys - the signature says Iterable / Sequence of names)
+        kind_it, got_it = try_call(ip, method(ip, iface, "extract_position"), [PyObj("iterator", items=list(p2), pos=0), r2], {})
+        c.oblige("put_get.keys_given_as_an_iterator", kind_it == "ok" and list(got_it) == list(p2) and all(ip.to_U(got_it[k]).eq(p2[k]) for k in p2))
         lp = ip.call(method(ip, iface, "log_prob"), [r2], {})
         c.oblige("log_prob_is_model_log_prob", to_sort(lp, Real) == to_sort(ip.getattr(ref, "log_prob"), Real))
     return u
@@ -186,6 +191,10 @@ liesel_unit("weakdist_deep", uid="C03.LieselInterface.weakdist_deep.single_key",
 liesel_unit("direct", uid="C03.LieselInterface.direct.single_key", single_key=True)
 liesel_unit("hier", uid="C03.LieselInterface.hier.model_rebuilt_after_pop", prehistory="pop")
 liesel_unit("weakdist", uid="C03.LieselInterface.weakdist.model_rebuilt_from_copy", prehistory="copy")
+# the caching invariant itself (C01) on a model whose variables have a HISTORY in an earlier model (assigned there, popped / copied, rebuilt): the interface harness
+# assigns a position through the public setters and compares every node with the from-scratch evaluation
+liesel_unit("hier", uid="C01.model_rebuilt_after_pop.hier", prop="C01", prehistory="pop")
+liesel_unit("weakdist", uid="C01.model_rebuilt_from_copy.weakdist", prop="C01", prehistory="copy")
 liesel_unit("weakdist")  # a weak variable that carries a distribution: the distribution must be refreshed AFTER the variable's value calculation
 liesel_unit("diamond", "liesel/model/goose.py", "GooseModel")
 liesel_unit("diamond", auto_update=False)
